@@ -53,10 +53,19 @@ def run_programs(cfg, programs, nproc=None, timeout=900):
     nproc = nproc or NPROC
     if not programs:
         return []
+    orig = programs
     if len(set(p["id"] for p in programs)) != len(programs):
-        seen = set()
-        dup = [p["id"] for p in programs if p["id"] in seen or seen.add(p["id"])]
-        raise MachineryError("duplicate program ids: %s" % dup[:5])
+        # identical programs generated twice are run once; the same id with different content is a generator bug
+        seen, uniq = {}, []
+        for p in programs:
+            key = json.dumps([p["steps"], p.get("ign"), p.get("cfg")], sort_keys=True)
+            if p["id"] in seen:
+                if seen[p["id"]] != key:
+                    raise MachineryError("duplicate program id with different content: %s" % p["id"])
+                continue
+            seen[p["id"]] = key
+            uniq.append(p)
+        programs = uniq
     nchunks = max(1, min(nproc, (len(programs) + 7) // 8))
     chunks = [programs[i::nchunks] for i in range(nchunks)]
     with scratch("drv_") as d:
@@ -81,7 +90,7 @@ def run_programs(cfg, programs, nproc=None, timeout=900):
                 if "driver_error" in t:
                     raise MachineryError("driver error in program %s: %s" % (t["id"], t["driver_error"]))
                 byid[t["id"]] = t
-    return [byid[p["id"]] for p in programs]
+    return [byid[p["id"]] for p in orig]
 
 
 # ---------------------------------------------------------------- findings
